@@ -15,16 +15,18 @@ turns into a failing input is reported as a broken correspondence.
 """
 import os
 import vlib
+from props import _score as E2E
 
 LEVEL = "proof"
 ASSUMPTIONS = [
     "publication heights lie in [0, 2^31-1 - finalityDelay - table size) (block heights of the SP chain); "
     "number of keystones * max table entry < 2^31; lookup table non-empty",
     "both views start at the same first keystone and share the config object (asserted by the code)",
-    "ReducedPublicationView/getKeystoneContext (which endorsements count) and the outer comparePopScore are "
-    "modelled (decision function of the short-cuts), not exercised on real block trees by this check",
+    "end-to-end stream: ALT chains protected by VBK only (ATVs); VBK chains protected by BTC (VTBs) are not generated; "
+    "regtest parameters (EnableTimeAdjustment = false, so the time-adjustment branch of getKeystoneContext is not reached); "
+    "the publication view of a chain is computed from the registry-level description by props/_score.py (not proved)",
 ]
-HARNESSES = [("h_score", "rel")]
+HARNESSES = [("h_score", "rel"), ("h_score_e2e", "rel")]
 META = {
     "text": "Theorems (Coq 8.16, closed under the global context, for ALL views with any number of keystones, by "
             "induction over the keystone list): (1) impl_sign_eq_spec[_gen]/impl_real_sign_eq_spec: "
@@ -46,9 +48,14 @@ META = {
     "note": "Trusted: Coq kernel, extraction (ExtrOcamlBasic), OCaml driver, C++ harness incl. its synthetic view "
             "(mimics ReducedPublicationView on top of the library's keystone_util), tools/gen_keystone.py (clang "
             "JSON AST -> Gallina, tiny subset, fails closed), tools/gen_scoreparams.py (regex, fails closed, "
-            "cross-checked against the linked library at run time). Not exercised on real block trees: "
-            "getProtoKeystoneContext/getKeystoneContext (which endorsements count) and the outer comparePopScore "
-            "(modelled as a decision function only). No axioms.",
+            "cross-checked against the linked library at run time). End-to-end stream (props/_score.py, "
+            "harness/h_score_e2e.cpp on the shared World runner): pairs of fully valid competing ALT branches with "
+            "ATVs on real trees; the view per chain (earliest block of proof on the best VBK chain among "
+            "endorsements of the keystone's window [k, min(k+ki+1, tip)]) is computed from the registry ids and fed "
+            "to the extracted impl/spec/outer_cmp; AltBlockTree::comparePopScore must return that sign; role swap "
+            "on a second instance, zero without keystone crossing, invalidated candidate and candidate forking "
+            "below a finalized block are direct oracles. Not generated: VBK forks resolved by BTC publications "
+            "(VTBs), time adjustment. No axioms.",
     "technique": "Coq proof (refinement invariant, induction over the keystone list; lia) + source-generated leaf "
                  "functions and parameters + extraction-based differential correspondence with direct oracles "
                  "(spec sign, antisymmetry, zero, keystone maths) and exhaustive small-scope sweeps",
@@ -431,10 +438,48 @@ def run_sweeps(ctx, model, harness):
     return total
 
 
+def run_e2e(ctx, model, e2e_harness, pairs, tag):
+    """end-to-end stream on real ALT trees (props/_score.py, harness/h_score_e2e.cpp)"""
+    recs, errs = E2E.run_pairs(vlib, ctx, model, e2e_harness, pairs, tag)
+    for e in errs:
+        ctx.broken.append("runner(e2e): " + e)
+    hist = {}
+    for rec in recs:
+        hist[rec["status"]] = hist.get(rec["status"], 0) + 1
+        P = pairs[rec["i"]]
+        if rec["status"] in ("sign", "oracle"):
+            ctx.violation({"kind": "e2e", "pair": E2E.pair_to_dict(P), "impl": rec["impl"], "expected_sign": rec["expected"],
+                           "what": rec["why"],
+                           "script": ["p0.%d %s" % (j, l) for j, l in enumerate(P.script)]})
+        elif rec["status"] == "model":
+            ctx.broken.append("e2e: " + rec["why"])
+    nskip = hist.get("skip", 0)
+    if nskip * 10 > len(recs):
+        why = [r_["why"] for r_ in recs if r_["status"] == "skip"][:2]
+        ctx.broken.append("e2e: %d of %d generated pairs could not be judged: %r" % (nskip, len(recs), why))
+    judged = [r_ for r_ in recs if r_["status"] != "skip"]
+    cov = ctx.cov.setdefault("e2e", {})
+    cov["pairs"] = cov.get("pairs", 0) + len(recs)
+    cov["judged"] = cov.get("judged", 0) + len(judged)
+    cov["status"] = hist
+    cov["skipped_why"] = [r_["why"][:200] for r_ in recs if r_["status"] == "skip"][:3]
+    cov["kinds"] = {k: sum(1 for r_ in recs if r_["kind"] == k) for k in ("duel", "short", "invalid", "final")}
+    cov["expected_sign_histogram"] = {str(k): sum(1 for r_ in judged if r_["expected"] == k) for k in (-1, 0, 1)}
+    cov["below_final"] = sum(1 for r_ in judged if r_.get("below_final"))
+    cov["atvs"] = sum(P.stats.get("atvs", 0) for P in pairs)
+    cov["losing_fork_blocks_of_proof"] = sum(P.stats.get("losing_fork_bops", 0) for P in pairs)
+    cov["keystones_crossed_histogram"] = {str(k): sum(1 for P in pairs for v in (P.viewA, P.viewB) if len(v) == k) for k in range(6)}
+    cov["unpublished_keystones"] = sum(1 for P in pairs for v in (P.viewA, P.viewB) for h in v if h is None)
+    for rec in judged[:2]:
+        P = pairs[rec["i"]]
+        ctx.sample({"e2e": P.kind, "cfg": P.cfg, "viewA": P.viewA, "viewB": P.viewB, "impl": rec["impl"], "expected_sign": rec["expected"]})
+    return len(judged)
+
+
 def run(ctx):
     ctx.prove()
     okm, model, mlog = vlib.build_model("Score")
-    okh, hs, hlog = vlib.build_harness(["h_score"])
+    okh, hs, hlog = vlib.build_harness(["h_score", "h_score_e2e"])
     if not okm:
         ctx.broken.append("model-build: " + mlog[-300:])
     if not okh:
@@ -442,14 +487,21 @@ def run(ctx):
     if not (okm and okh):
         return
     harness = hs["h_score"]
+    e2e_harness = hs["h_score_e2e"]
     ctx.cov["trusted_base"] = [
         "tools/gen_keystone.py: clang -ast-dump=json of src/pop/keystone_util.cpp -> coq/Gen/KeystoneGen.v (fails closed)",
         "tools/gen_scoreparams.py: regex over alt_chain_params.hpp / vbk_chain_params.hpp -> coq/Gen/ScoreParams.v, "
         "compared with the linked library's defaults on every run (op params)",
         "harness view: struct View in harness/h_score.cpp mimics ReducedPublicationView (size/empty/getKeystone on top of "
-        "the library's keystone_util); getProtoKeystoneContext/getKeystoneContext and the outer comparePopScore are "
-        "modelled, not exercised",
+        "the library's keystone_util) for the pure-core stream",
+        "e2e stream: harness/world.hpp (shared runner), harness/h_score_e2e.cpp (duel op), props/_world.py + props/_score.py "
+        "(generator and the registry-level computation of each chain's publication view: not proved, exercised against "
+        "the real getProtoKeystoneContext/getKeystoneContext/comparePopScore)",
     ]
+    if ctx.replay and ctx.replay.get("kind") == "e2e":
+        n = run_e2e(ctx, model, e2e_harness, [E2E.pair_from_dict(ctx.replay["pair"])], "replay")
+        ctx.cov["evaluations"] = n
+        return
     if ctx.replay:
         cases = [tuple(c) for c in ctx.replay.get("cases", [])]
         spec = [tuple(c) for c in ctx.replay.get("spec", [])]
@@ -474,6 +526,23 @@ def run(ctx):
     gen_cases(ctx, cs, 20000 if ctx.tier == "quick" else 300000)
     n, nbad = evaluate(ctx, model, harness, cs.cases, cs.spec, "main")
     total = run_sweeps(ctx, model, harness)
+    # end-to-end stream: real ALT trees, ATVs, VBK blocks of proof; getProtoKeystoneContext / getKeystoneContext /
+    # outer comparePopScore against the model's verdict on the publication views computed from the registry
+    if E2E.TABLE != DEFAULTS[0][0]:
+        ctx.broken.append("e2e: the ALT default lookup table %r is not the one the e2e predictor uses" % (DEFAULTS[0][0],))
+    pairs = []
+    if os.path.isdir(cdir):
+        import json as _json
+        for fn in sorted(os.listdir(cdir)):
+            if fn.startswith("e2e_") and fn.endswith(".json"):
+                d = _json.load(open(os.path.join(cdir, fn)))
+                fx = d["fixed"]
+                fx["plan"] = [tuple(x) for x in fx["plan"]]
+                pairs.append(E2E.gen_pair(vlib.Rng(1), d.get("kind", "duel"), fx))
+    ctx.cov["e2e_corpus_pairs"] = len(pairs)
+    pairs += E2E.plan_pairs(ctx.rng.fork(), 50 if ctx.tier == "quick" else 1500)
+    ne2e = run_e2e(ctx, model, e2e_harness, pairs, "main")
+    n += ne2e
     ctx.cov["evaluations"] = n + total
     ctx.cov["distinct_nontrivial"] = len({(op, tuple(a)) for _, op, a in cs.cases if op == "cmp" and a[4] != "-" and a[5] != "-"}) + total
     ctx.cov["rule"] = ("distinct (config, view A, view B) with both views non-empty among the explicit cases, plus every pair "
